@@ -28,6 +28,10 @@ def pred(p):
         return lambda x: x.a == v
     if f == "b_notnone":
         return lambda x: x.get("b") is not None
+    if f == "b_value":
+        # not a bool: None / 0 are false, other numbers true (a value held in a container - C17's nested
+        # concretisation - is looked up inside it)
+        return lambda x: (x.get("b")["n"][0] if isinstance(x.get("b"), dict) else x.get("b"))
     if f == "true":
         return lambda x: True
     return lambda x: False
